@@ -23,8 +23,8 @@ CHECKS = {
    note="Seeded sampling of attribute values and histories; no fault or schedule dimension beyond reopen-from-bytes (the squashfs/ISO parts are input-driven). squashfs times are 1970..2106 (unsigned 32-bit field). Empty path components ('//') in link targets are not generated.",
    technique=TECH+"seeded attribute histories vs reference model with reopen-from-bytes; workspace metadata round trip through Finalize"),
  "C18": dict(level="fault_enumeration", design="§5 C18",
-   text="Per base image of every filesystem kind (fat12/16/32, ext4 written by the library and by mke2fs, iso9660 plain/Rock Ridge/Joliet, squashfs with several compressors/options), built deterministically on the simulated device: (a) the structural field map of the format (BPB/FSInfo fields, FAT entries incl. self/back links and out-of-range, directory entries; ext4 superblock, group descriptors, inodes, extent headers and entries, directory entries; ISO volume descriptors, root/directory records, path table entries; squashfs superblock fields, table pointers, metadata headers) x boundary values is enumerated; (b) seeded blind pokes of 1/2/4/8 bytes inside the writer's metadata extents (file payload excluded; 300 per image quick, 4000 thorough); (c) device truncation at structure boundaries. Each damaged image is opened, walked and every file Stat-ed and read through a bounded reader under a device-read budget (ReadAt raises once exceeded, which breaks endless read loops), a per-request size bound and a CPU-time bound, with the worker under RLIMIT_AS and its death or hang attributed to the case through a shared-memory marker.",
-   note="Field map enumeration is complete per base image; blind pokes are a seeded sample. Budgets: max(20000, 1000x baseline) device reads, request <= 64x image + 1 MiB, 10 s CPU (a timing overrun must reproduce in a fresh process). Returned data is not judged.",
+   text="Per base image of every filesystem kind (fat12/16/32, ext4 written by the library and by mke2fs, iso9660 plain/Rock Ridge/Joliet, squashfs with several compressors/options), built deterministically on the simulated device: (a) the structural field map of the format (BPB/FSInfo fields, FAT entries incl. self/back links and out-of-range, directory entries; ext4 superblock, group descriptors, inodes, extent headers and entries, directory entries; ISO volume descriptors, root/directory records, path table entries; squashfs superblock fields, table pointers, metadata headers) x boundary values is enumerated; (b) seeded blind pokes of 1/2/4/8 bytes inside the writer's metadata extents (file payload excluded; 300 per image quick, 4000 thorough); (c) device truncation at structure boundaries. Each damaged image is opened, walked and every file Stat-ed and read through a bounded reader under a device-read budget (ReadAt raises once exceeded, which breaks endless read loops), a per-request size bound and a per-call CPU-time bound, with the worker under RLIMIT_AS and its death or hang attributed to the case through a shared-memory marker.",
+   note="Field map enumeration is complete per base image; blind pokes are a seeded sample. Budgets: max(20000, 1000x baseline) device reads, request <= 64x image + 1 MiB, 5 s CPU per library call (a timing overrun must reproduce in a fresh process); the walker stops descending after 10 s CPU in total, since the cost of a whole walk is the walker's number of calls times directory size and not a property of one call. Returned data is not judged.",
    technique=TECH+"stored-byte corruption and truncation fault enumeration over per-format field maps with read budgets and process-death attribution"),
  "C17": dict(level="exploration", design="§5 C17, §2.6",
    text="One opened squashfs image (files sharing fragment and metadata blocks, four compressors) is read by 2..8 (quick) / 2..32 (thorough) tasks with their own handles (ReadFile, ReadDir, Stat, Seek+partial Read) while another task calls SetCacheSize, with cache sizes 0, 1, 2, 4 blocks and default. The tasks are real goroutines run one at a time by a seeded cooperative scheduler (uniform random or PCT priorities) that decides who proceeds at every lock request, lock release and before/after every device ReadAt; Lock/Unlock call sites of the squashfs package are routed to the scheduler's lock model by a build-time go/ast rewrite through go build -overlay (no change in /repo). Oracles: every task's bytes equal the sequential reference, all tasks finish (lock-model deadlock detection, step budget), LRU map/list invariants hold whenever no lock is held, and in a second wave the same schedules run in a -race build whose token hand-off is uninstrumented, so the Go race detector reports data races for the schedule being run.",
